@@ -36,5 +36,5 @@ func VerifyMerkelProof(txid, root, proof []byte, index uint32) bool {
 		index >>= 1
 	}
 
-	return bytes.Equal(current, root)
+	return index == 0 && bytes.Equal(current, root)
 }
